@@ -175,6 +175,23 @@ var c14readonly = []c14ro{
 		_ = s.HasWildcard()
 		_, _, _ = influxql.ConditionExpr(s.Condition, &influxql.NowValuer{Now: c13clock})
 	}},
+	{"Reduce(expression of the statement)", func(s *influxql.SelectStatement) {
+		// the package-level functions take the statement's own nodes, not a copy
+		for _, v := range []influxql.Valuer{nil, &influxql.NowValuer{Now: c13clock}, influxql.MapValuer(c13point())} {
+			for _, f := range s.Fields {
+				_ = influxql.Reduce(f.Expr, v)
+			}
+			for _, d := range s.Dimensions {
+				_ = influxql.Reduce(d.Expr, v)
+			}
+			if s.Condition != nil {
+				_ = influxql.Reduce(s.Condition, v)
+			}
+		}
+		_, _, _ = influxql.ConditionExpr(s.Condition, nil)
+		_, _, _ = influxql.ConditionExpr(s.Condition, &influxql.NowValuer{Now: c13clock})
+		_, _, _ = influxql.ConditionExpr(s.Condition, &influxql.NowValuer{Now: c13clock})
+	}},
 	{"Clone", func(s *influxql.SelectStatement) { _ = s.Clone() }},
 	{"Walk", func(s *influxql.SelectStatement) { influxql.WalkFunc(s, func(influxql.Node) {}) }},
 }
@@ -269,6 +286,33 @@ func c14eval(c c14Case) (fs []ev.Finding, states []uint64) {
 		}
 		states = append(states, astx.HashString(astx.Dump(astx.Full, orig)+"\x00"+after+fmt.Sprint(st[1])))
 	}
+	// nothing mutable may be reachable from two statements: the original and its clone after the history, and the
+	// original and an independently parsed twin taken through the same library rewrites (a node handed out from
+	// package-level state would be in both)
+	if pa, pb, shared := astx.Shared(sides[0], sides[1]); shared && len(c.Steps) > 0 {
+		fs = append(fs, ev.Finding{Sig: "shared-after-history:" + astx.GenericPath(pa), Witness: wit, Detail: fmt.Sprintf("after %v original %s and clone %s are the same mutable object", c.stepNames(), pa, pb), Case: c, Rank: rank})
+	}
+	if len(c.Steps) > 0 {
+		if ts, err := influxql.ParseStatement(c.Text); err == nil {
+			twin := ts.(*influxql.SelectStatement)
+			ok := true
+			for _, st := range c.Steps {
+				m := c14muts[st[0]]
+				if m.run == nil || st[1] != 0 {
+					continue
+				}
+				if p, _ := try(func() { m.run(twin) }); p != nil {
+					ok = false
+					break
+				}
+			}
+			if ok {
+				if pa, pb, shared := astx.Shared(sides[0], twin); shared {
+					fs = append(fs, ev.Finding{Sig: "shared-with-independent-statement:" + astx.GenericPath(pa), Witness: wit, Detail: fmt.Sprintf("after %v on each, two independently parsed statements reach the same mutable object: %s and %s", c.stepNames(), pa, pb), Case: c, Rank: rank})
+				}
+			}
+		}
+	}
 	// read-only operations leave their receiver alone (checked in the state reached)
 	for _, side := range sides {
 		for _, ro := range c14readonly {
@@ -339,7 +383,7 @@ func init() {
 	}})
 }
 
-var c14atoms = []string{"time >= '2000-01-01T00:00:00Z'", "time < now() - 1h", "host = 'a'", "a = 1 + 2", "v > 1.5", "host =~ /^(a|b)$/"}
+var c14atoms = []string{"time >= '2000-01-01T00:00:00Z'", "time < now() - 1h", "host = 'a'", "a = 1 + 2", "v > 1.5", "host =~ /^(a|b)$/", "host =~ /^$/", "now() - 1h < time", "'2000-01-01T00:00:00Z' <= time"}
 
 func c14conditions() []string {
 	var out []string
@@ -415,6 +459,17 @@ func c14run(r *ev.Run) {
 				nCond++
 			}
 			exprs[cnd] = true
+		}
+	}
+	for _, t := range []string{
+		"SELECT percentile(value, 90 + 5) FROM m", "SELECT mean(v) FROM m GROUP BY time(5m, now())", "SELECT f(1 + 2, x) FROM m WHERE g(2 * 3) > 1",
+		"SELECT top(v, 1 + 1) FROM m GROUP BY time(1m + 1m)", "SELECT v FROM m WHERE time > now() - (1h + 30m)", "SELECT (1 + 2) * v, -(3 - 1) FROM m",
+	} {
+		if _, err := influxql.ParseStatement(t); err == nil {
+			if _, ok := roots[t]; !ok {
+				roots[t] = 2
+				nCond++
+			}
 		}
 	}
 	r.Set("condition_roots", nCond)
